@@ -220,14 +220,17 @@ class _JaxtypingLoader(SourceFileLoader):
             compile, tree, path, "exec", dont_inherit=True, optimize=_optimize
         )
 
-    def exec_module(self, module):
+    def get_code(self, fullname):
         # Use a custom optimization marker - the import lock should make this monkey
-        # patch safe
+        # patch safe.
+        # Only patch whilst obtaining this module's own code: if the patch were still
+        # active whilst the module is executed, then the bytecode of every module that
+        # it imports (instrumented or not) would be cached under our marker as well.
         with patch(
             "importlib._bootstrap_external.cache_from_source",
             ft.partial(_optimized_cache_from_source, self._typechecker.get_hash()),
         ):
-            return super().exec_module(module)
+            return super().get_code(fullname)
 
 
 class _JaxtypingFinder(MetaPathFinder):
